@@ -236,6 +236,11 @@ def run(ck: Checker, prog: Program, tier: str):
     ck.guard(_r4, ck, prog)
     ck.guard(check_type_agnostic_reads, ck, prog, "C15.R4")
     ck.guard(_copy_hooks, ck, prog, classes)
+    # "settings objects do not share state": what process() stores into the settings it is given (the FFT length) is an object of
+    # its own, never module-level state that the next settings object would receive too (effect rules of C09)
+    from . import c09
+    with ck.borrow(c09, "C15.R5+"):
+        ck.guard(c09._entry_effects, ck, prog, ("R2a", "R2b"))
     ck.extra["calls_resolved"] = eng.calls_resolved
 
 
